@@ -623,9 +623,13 @@ def gen_case(case_seed):
     ints = None
     if rng.random() < 0.15:
         ints = rng.choice([["i1", "i8", "i16", "i32", "i64"], ["i1", "i32", "index"], ["i1", "i64", "index"], ["i1", "i8"]])
+    focus = rng.random() < 0.22  # programs for the two test folding passes: every addi is constant-constant
+    if focus:
+        no_var_addi = True
     g = Gen14(rng, p_directed=rng.choice([0.3, 0.5, 0.7]), no_var_addi=no_var_addi, ext_calls=rng.random() < 0.5,
-              allow_float=rng.random() < 0.8, int_types=ints, safe_div=rng.choice([0.8, 0.95]))
-    if r < 0.25:
+              allow_float=rng.random() < 0.8, int_types=ints, safe_div=rng.choice([0.8, 0.95]),
+              addi_focus=40 if focus else 0)
+    if r < (0.6 if focus else 0.2):
         text, argt = g.modprog_text()
         kind = "mod"
         inputs = [f"{case_seed}/{k}" for k in range(N_INPUTS if argt else 1)]
